@@ -487,7 +487,7 @@ func (p c02) leafrefs(c *core.Ctx, idx int) {
 	r := c.Rand
 	targets := []struct{ typ, format string }{{"type int32;", "int32"}, {"type string;", "string"}, {"type tt;", "uint16"}, {"type enumeration { enum a; }", "enumeration"}, {"type boolean;", "boolean"}}
 	t := targets[r.Intn(len(targets))]
-	variant := r.Intn(16)
+	variant := r.Intn(17)
 	var body, extra string
 	mods := map[string]string{}
 	nExp := 1
@@ -536,6 +536,11 @@ func (p c02) leafrefs(c *core.Ctx, idx int) {
 			body = "  container c0 { leaf tgt { type int32; } leaf x { type ul; } }\n  container c1 { leaf tgt { type string; } leaf x { type ul; } }\n"
 		}
 		nExp = 2
+	case 16: // a grouping leaf whose union has a member that names a typedef of a leafref: resolved for each use of the grouping
+		extra = "  typedef lr { type leafref { path \"../tgt\"; } }\n"
+		body = "  grouping g { leaf x { type union { type lr; type decimal64 { fraction-digits 1; } } } }\n" +
+			"  container c0 { leaf tgt { type int32; } uses g; }\n  container c1 { leaf tgt { type string; } uses g; }\n"
+		nExp = 2
 	case 15: // in a grouping of an imported module: the prefix of the path is that module's, under which this module imports another one
 		tt := t.typ
 		if strings.Contains(tt, "tt;") {
@@ -577,7 +582,7 @@ func (p c02) leafrefs(c *core.Ctx, idx int) {
 	if c.Guard("load", func() { m, err = c02load(mods) }) {
 		return
 	}
-	vname := []string{"relative", "forward", "absolute-into-list", "leafref-to-leafref", "typedef-in-grouping-x2", "imported-module", "out-of-a-case", "inside-nested-choice", "two-up-from-a-case", "grouping-used-at-two-target-types", "out-of-two-choice-levels", "out-of-three-shorthand-levels", "two-up-thru-two-choices", "typedef-leafref-at-two-target-types", "leafref-member-of-typedef-union", "prefix-of-the-grouping's-module"}[variant]
+	vname := []string{"relative", "forward", "absolute-into-list", "leafref-to-leafref", "typedef-in-grouping-x2", "imported-module", "out-of-a-case", "inside-nested-choice", "two-up-from-a-case", "grouping-used-at-two-target-types", "out-of-two-choice-levels", "out-of-three-shorthand-levels", "two-up-thru-two-choices", "typedef-leafref-at-two-target-types", "leafref-member-of-typedef-union", "prefix-of-the-grouping's-module", "typedef-leafref-member-of-a-grouping-leaf's-union"}[variant]
 	if err != nil {
 		c.Violate("leafref/load-error/"+vname, "%v\n%s", err, all)
 		return
@@ -590,7 +595,7 @@ func (p c02) leafrefs(c *core.Ctx, idx int) {
 	if variant == 11 {
 		want.format = "leafref-list" // Resolve() gives the type of the target leaf
 	}
-	if variant == 14 {
+	if variant == 14 || variant == 16 {
 		ld := leafDumps(m, name)
 		if len(ld) != 2 {
 			c.Violate("leafref/expansion-count", "expected 2 expansions, got %d\n%s", len(ld), all)
